@@ -5,6 +5,7 @@ mod alloc;
 mod coord;
 mod engine;
 mod gen;
+mod geo;
 mod kernel;
 mod known;
 mod minimise;
